@@ -72,7 +72,7 @@ shutil.copy(seed + "/patch.diff", dst + "/patch.diff")
 shutil.copytree(seed + "/demo", dst + "/demo")
 readme = open(seed + "/README.md", errors="replace").read() if os.path.exists(seed + "/README.md") else ""
 open(dst + "/README.agent.md", "w").write(readme)
-meta = {"property": prop, "variant": x, "confirmed": confirmed, "base_commit": subprocess.check_output("git -C /repo rev-parse --short HEAD", shell=True, text=True).strip(),
+meta = {"property": prop, "variant": x, "confirmed": confirmed, "base_commit": subprocess.check_output("git -C %s rev-parse --short HEAD" % wt, shell=True, text=True).strip(),
         "needs_to_manifest": "see README.agent.md", "what_i_ran": {
             "apply": "git apply patch.diff (scratch worktree /tmp/wt/%s)" % prop,
             "suite": "go build ./... && go test -vet=off -count=1 ./... (QUEUE_ACTIONS_METRICS=no): " + ("all packages ok" if suite_ok else "FAILED"),
